@@ -890,7 +890,7 @@ def run(chk, replay=None):
     # Python's own parser
     for pid in texts:
         t = programs[pid][0]
-        a = py_tree(texts[pid][3])
+        a = py_tree(texts[pid][3].strip())     # blanks around the whole expression are harmless
         b = py_tree(oracle_text(syms, t, 3, True))
         chk.count("python_ast_checked")
         if a.startswith("error"):
